@@ -25,25 +25,73 @@ def isReserved : PyVal → Bool
   | _ => false
 
 /-- What `datetime.fromtimestamp` accepts: a number (`bool` is an `int`); anything else is a
-`TypeError`. Range errors of the platform's `fromtimestamp` are outside the model (the harness
-stays inside the safe range). -/
+`TypeError`. -/
 def isNumber : PyVal → Bool
   | .int _ => true
   | .float _ => true
   | .bool _ => true
   | _ => false
 
+/-- First second `datetime.fromtimestamp` (naive local time, the process runs in UTC) accepts:
+0001-01-02T00:00:00 — one day after `datetime.min`, because CPython probes `t - 24 h` to detect a
+fold and that probe must itself be representable. Below: `ValueError` / `OSError` / `OverflowError`.
+A parameter of CPython and the time zone, validated at the boundary by correspondence. -/
+def tsMin : Int := -62135510400
+/-- First second after `datetime.max` (9999-12-31T23:59:59.999999): refused from here on. -/
+def tsEnd : Int := 253402300800
+/-- IEEE-754 bit patterns of `62135510400.0` and `253402300800.0` (both exactly representable). -/
+def tsMinMagBits : Nat := 0x422cef214b000000
+def tsEndBits : Nat := 0x424d7ffa20c00000
+
+/-- Is the number inside the range of `datetime.fromtimestamp`?  Floats are compared through their
+bit patterns (for one sign the order of finite doubles is the order of their bits; NaN and the
+infinities have larger magnitudes than both bounds, so they are outside: `ValueError` /
+`OverflowError`).  No float lies strictly between `tsEnd - 1µs` and `tsEnd`, so rounding to
+microseconds cannot cross the upper bound. -/
+def tsInRange : PyVal → Bool
+  | .int i => decide (tsMin ≤ i) && decide (i < tsEnd)
+  | .bool _ => true
+  | .float b => if b.toNat < 2 ^ 63 then decide (b.toNat < tsEndBits) else decide (b.toNat - 2 ^ 63 ≤ tsMinMagBits)
+  | _ => false
+
+/-- `datetime.fromtimestamp(x)`: a `datetime` for a number inside the range, `none` = it raises
+(`TypeError` for anything but a number, `ValueError` / `OverflowError` / `OSError` outside the range). -/
+def fromtimestamp : Option PyVal → Option Item
+  | some x => if isNumber x && tsInRange x then some (.datetime x) else none
+  | none => none
+
 /-- compiled.pyx:66-70: a reserved item becomes `datetime.fromtimestamp(item[1])`, every other item
 is kept. -/
 def post (v : PyVal) : Option Item :=
   if isReserved v then
     match v with
-    | .list xs =>
-      match xs[Gen.Row.reservedArg]? with
-      | some x => if isNumber x then some (.datetime x) else none
-      | none => none
+    | .list xs => fromtimestamp xs[Gen.Row.reservedArg]?
     | _ => none
   else some (.val v)
+
+/-! ### The Python primitives the statement-level translation of `from_bytes_cython` uses
+(`Generated/RowFns.lean`, regenerated from compiled.pyx on every run) -/
+
+/-- `cdef list x = <expr>`: Cython accepts an exact `list` (and `None`, on which the following
+`for` raises `TypeError`); anything else, or an exception of `<expr>`, ends the call. -/
+def castList : Option PyVal → Option (List PyVal)
+  | some (.list xs) => some xs
+  | _ => none
+
+/-- `isinstance(v, list)` -/
+def isList : PyVal → Bool
+  | .list _ => true
+  | _ => false
+
+/-- `len(v)` of a list (the translation only emits it behind `isinstance(v, list) and …`). -/
+def pyLen : PyVal → Nat
+  | .list xs => xs.length
+  | _ => 0
+
+/-- `v[i]` of a list, `none` outside it. -/
+def itemAt : PyVal → Nat → Option PyVal
+  | .list xs, i => xs[i]?
+  | _, _ => none
 
 /-- `packb(tuple(self), …)` (orso/row.py:162): the row is one array. -/
 def packRow (row : List PyVal) : Option RowBytes.Bytes := packb (.list row)
